@@ -37,6 +37,7 @@ import (
 	"os/exec"
 	"runtime"
 	"sort"
+	"strconv"
 	"strings"
 	"sync"
 	"sync/atomic"
@@ -539,7 +540,7 @@ func (c *Case) finding(kind, class, what string, extra map[string]any) {
 }
 
 // the deviation flags of the model (Dev in Model.lean) and the known finding each stands for
-const allFlags = "iezsuonfr"
+const allFlags = "iezsuonfrat"
 
 var flagID = map[byte]string{
 	'i': "C13-slice-inclusive",
@@ -551,6 +552,8 @@ var flagID = map[byte]string{
 	'n': "C13-gen-modify-null",
 	'f': "C13-filter-map-null",
 	'r': "C13-modify-root-scalar",
+	'a': "C13-delone-absent",
+	't': "C13-filter-root-last",
 }
 
 // a path that selects (or, for Set, creates) the same location more than once (a union that lists a member
@@ -788,6 +791,13 @@ func (w *worker) checkScripts(c *Case, trees ...*Node) error {
 					continue
 				}
 				scriptCache.Store(key, true)
+				if isRootScript(f.Script) {
+					scriptCache.Delete(key)
+					if err := w.checkRootScript(c, f, n, cn); err != nil {
+						return err
+					}
+					continue
+				}
 				a, err := w.ask([]string{"script\t" + f.Script + "\t" + cn})
 				if err != nil {
 					return err
@@ -807,6 +817,62 @@ func (w *worker) checkScripts(c *Case, trees ...*Node) error {
 					}
 				}
 			}
+		}
+	}
+	return nil
+}
+
+// rootQ is the integer member "q" of the document (what `$.q` in a root-relative script stands for).
+func rootQ(t *Node) (int64, bool) {
+	if t == nil || t.Kind != 'o' {
+		return 0, false
+	}
+	for i, k := range t.Keys {
+		if k == "q" && t.Kids[i].Kind == 'i' {
+			return t.Kids[i].I, true
+		}
+	}
+	return 0, false
+}
+
+// checkRootScript: a script with a `$` operand. The driver's definition (root, element) against the library,
+// (1) with the document as `$`: Get of `$.v[?(script)]` on {"q": q, "v": [value]} (q the document's), and
+// (2) with the element as `$` (what Script.Match does; deviation t).
+func (w *worker) checkRootScript(c *Case, f *Frag, n *Node, cn string) error {
+	q, ok := rootQ(c.t)
+	if !ok {
+		return fmt.Errorf("a root-relative script on a document without an integer member q: %s", c.String())
+	}
+	key := fmt.Sprintf("%s|%d|%s", f.Script, q, cn)
+	if _, done := scriptCache.LoadOrStore(key, true); done {
+		return nil
+	}
+	a, err := w.ask([]string{
+		"rscript\t" + f.Script + "\t{K(71)I(" + strconv.FormatInt(q, 10) + ")}\t" + cn,
+		"rscript\t" + f.Script + "\t" + cn + "\t" + cn})
+	if err != nil {
+		return err
+	}
+	x := jp.MustParseString("$.v[?(" + scriptText[f.Script] + ")]")
+	for _, genData := range []bool{false, true} {
+		var v any = n.simple()
+		var doc any = map[string]any{"q": q, "v": []any{v}}
+		if genData {
+			g := n.genNode()
+			v = nil
+			if g != nil {
+				v = g
+			}
+			doc = gen.Object{"q": gen.Int(q), "v": gen.Array{g}}
+		}
+		res, ok := getSafe(x, doc)
+		if got := ok && len(res) == 1; fmt.Sprint(got) != a[0] {
+			c.finding("disagreement", "script", fmt.Sprintf("script %s (%s) with $.q = %d on %s (gen=%v): driver %s, Get %v",
+				f.Script, scriptText[f.Script], q, cn, genData, a[0], got), nil)
+		}
+		if got := matchSafe(f.filter(), v); fmt.Sprint(got) != a[1] {
+			c.finding("disagreement", "script", fmt.Sprintf("script %s (%s) with the element as $ on %s (gen=%v): driver %s, Script.Match %v",
+				f.Script, scriptText[f.Script], cn, genData, a[1], got), nil)
 		}
 	}
 	return nil
@@ -1540,6 +1606,77 @@ func produce(emit func(Case)) {
 				add(Case{Op: "mod", One: one, P: p, t: t, Mod: lib.Pick(r, modPool)}, "random")
 			default:
 				add(Case{Op: "rem", One: one, P: p, t: t}, "random")
+			}
+		}
+	}
+
+	// (5) filters with a root-relative operand (`$.q`): the document is {"a": tree, "q": int}, the path starts with the
+	// name a (so that `$.q` is not among the locations the call may change), the filter stands in last and in inner
+	// position, as `==` operand (either side) and under `!=`; every mutator and every One form
+	{
+		i := nInt
+		doc := func(t *Node, q int64) *Node { return nObj("a", t, "q", i(q)) }
+		trees := []*Node{
+			nArr(i(1), i(2), i(3), i(2)),
+			nObj("a", i(1), "b", i(2), "c", i(2)),
+			nArr(nObj("a", i(1), "b", i(0)), nObj("a", i(2), "b", i(0)), nObj("b", i(2)), nObj("a", i(2))),
+			nObj("a", nObj("a", i(2), "b", i(5)), "b", nObj("a", i(1)), "c", nObj("b", i(2))),
+			nArr(nArr(i(1), i(2)), nArr(i(2)), nObj("a", i(2)), i(2)),
+			nArr(),
+		}
+		tails := []Path{{}, {fChild("b")}, {fChild("a")}, {fNth(0)}, {fWild()}, {fChild("n")}}
+		n := 0
+		for _, sc := range rootScriptNames {
+			for _, t := range trees {
+				for _, q := range []int64{2, 1, 7} {
+					for _, tail := range tails {
+						ops(append(Path{fChild("a"), fFilter(sc)}, tail...), doc(t, q), "root_filter", "I(9)", "N", "Cn")
+						n++
+					}
+					ops(Path{fChild("a"), fWild(), fFilter(sc)}, doc(t, q), "root_filter", "I(9)", "N", "")
+					ops(Path{fChild("a"), fFilter(sc), fFilter(sc)}, doc(t, q), "root_filter", "I(9)", "N", "")
+					n += 2
+				}
+			}
+		}
+		rep.Exhaustive = append(rep.Exhaustive, fmt.Sprintf(
+			"root-relative filters: %d (path, document) pairs = {%s} x %d trees under {a: tree, q: 2|1|7} x {last, before a name/index/wildcard, after a wildcard, twice} x every mutator and One form",
+			n, strings.Join(rootScriptNames, ", "), len(trees)))
+		r := lib.NewRng(*seed).Fork(5)
+		tg := &treeGen{r: r}
+		pg := &pathGen{r: r}
+		cnt := 3000
+		if thorough {
+			cnt = 50000
+		}
+		for k := 0; k < cnt; k++ {
+			t := tg.container(1+r.Intn(3), 1+r.Intn(4))
+			var p Path
+			if r.Bool() {
+				p = pg.located(t)
+			} else {
+				p = pg.path(3)
+			}
+			// one position becomes (or gains) a root-relative filter
+			at := r.Intn(len(p) + 1)
+			f := fFilter(lib.Pick(r, rootScriptNames))
+			if at < len(p) && r.Bool() {
+				p[at] = f
+			} else {
+				p = append(p[:at], append(Path{f}, p[at:]...)...)
+			}
+			p = append(Path{fChild("a")}, p...)
+			d := doc(t, int64(r.Intn(5)))
+			one := r.Intn(3) == 0
+			switch r.Intn(6) {
+			case 0, 1:
+				add(Case{Op: "set", One: one, P: p, t: d, Val: lib.Pick(r, valuePool)}, "root_filter_random")
+			case 2:
+				add(Case{Op: "del", One: one, P: p, t: d}, "root_filter_random")
+			case 3:
+				add(Case{Op: "mod", One: one, P: p, t: d, Mod: lib.Pick(r, modPool)}, "root_filter_random")
+			default:
+				add(Case{Op: "rem", One: one, P: p, t: d}, "root_filter_random")
 			}
 		}
 	}
